@@ -61,6 +61,8 @@ func runC19(c *Ctx, r *Report) {
 	r.Floor("C19-e/pool-return", 1, "kfMath's context wrapper")
 	r.Floor("C19-e/pool-return-once", 1, "kfMath's context wrapper")
 	c19UnaryAgreement(c, r, "C19-f/unary-agreement")
+	c19ConstNodes(c, r, "C19-c/const-nodes")
+	c19GroupOpaque(c, r, "C19-g/group-opaque")
 }
 
 func scannerGuard2(c *Ctx, r *Report) {
